@@ -536,9 +536,10 @@ Print Assumptions C06_query_new_draw_masks.
 (** the correspondence's judge of a querying draw ([DrawQueryTie.qcheck]: the screen's stream
     against [DrawQuery.screen] of the model's run under the reply schedule the harness played,
     and against the final-state predicate) is the judge of the draw itself, whatever the
-    schedule *)
+    schedule (standard output redirected: as long as the terminal's screen received nothing) *)
 Theorem C06_query_check_is_check :
   forall c : TI.model.DrawQueryTie.qcase,
+  (TI.model.DrawQueryTie.q_redirected c = true -> TI.model.DrawQueryTie.q_term c = []) ->
   TI.model.DrawQueryTie.qcheck c = check (TI.model.DrawQueryTie.q_c c).
 Proof. exact TI.proofs.DrawQueryProofs.qcheck_is_check. Qed.
 Print Assumptions C06_query_check_is_check.
@@ -567,3 +568,21 @@ Theorem C06_query_late_echo_off_refuted :
   /\ TI.model.DrawQuery.screen true (run TI.model.DrawQuery.exchange_late [] [reply]) = S.
 Proof. exact TI.proofs.DrawQueryProofs.late_echo_refuted. Qed.
 Print Assumptions C06_query_late_echo_off_refuted.
+
+(** the bracket, read off the SOURCE (T): [gen/Skeletons.v] is the effect skeleton of
+    [utils.query_terminal] (with [write_tty] / [read_tty] inlined) translated from the working
+    tree on every run; on every fault-free path through it, every transmission ([os.write],
+    [tcdrain]) and every read ([select], [os.read]) happens while the terminal attributes are
+    switched to a MODIFIED copy of what [tcgetattr] returned and every path puts them back as
+    met ([DrawQuerySrc.bracketed], a syntactic dataflow check; which flag the modification
+    clears -- ECHO, [utils.py:622] -- is not in the skeleton); there is a write, a drain and a
+    read to bracket.  The variants that transmit before any attribute change, or restore before
+    they read, fail the check ([proofs/DrawQuerySrcProofs.v]). *)
+From TI Require lib.Eff gen.Skeletons model.DrawQuerySrc proofs.DrawQuerySrcProofs.
+Theorem C06_query_source_bracketed :
+  TI.model.DrawQuerySrc.bracketed 4 TI.gen.Skeletons.sk_query_terminal = true
+  /\ In TI.lib.Eff.TtyWrite (TI.model.DrawQuerySrc.io_ops TI.gen.Skeletons.sk_query_terminal)
+  /\ In TI.lib.Eff.Drain (TI.model.DrawQuerySrc.io_ops TI.gen.Skeletons.sk_query_terminal)
+  /\ In TI.lib.Eff.TtyRead (TI.model.DrawQuerySrc.io_ops TI.gen.Skeletons.sk_query_terminal).
+Proof. exact TI.proofs.DrawQuerySrcProofs.source_query_terminal_bracketed. Qed.
+Print Assumptions C06_query_source_bracketed.
